@@ -66,7 +66,10 @@ func init() {
 		Rule:       "as C01 with Byzantine leaders proposing blocks every correct validator rejects (view 0, inside NEW_VIEWs) and per-node consumer rejections; non-trivial = a commit was judged in a case where a bad block had been proposed",
 		Floors:     map[string]int{"C04 commits judged": 1000, "adv badBlock": 500},
 		Judged:     []string{"C04 commits judged", "C04 votes for standalone proposals judged"}})
-	reg(&sim.SimCheck{Prop: "C07", Workload: "c07", Profile: withOpts(advProfile(map[string]int{"forgedNV": 20, "twistedNV": 20, "barePP": 8, "mutate": 30, "crossInstance": 12, "vcGames": 14}, 450, 2), func(p *sim.Profile) { p.MinN = 5 }),
+	reg(&sim.SimCheck{Prop: "C07", Workload: "c07", Profile: withOpts(advProfile(map[string]int{"forgedNV": 20, "twistedNV": 20, "barePP": 8, "mutate": 30, "crossInstance": 12, "vcGames": 14}, 450, 2), func(p *sim.Profile) {
+		p.MinN = 5
+		p.SplitPct = 40 // in these cases the main loop may handle the expiry of the election timer while the worker is in the middle of a handler
+	}),
 		QuickCases: 5000, ThoroughCases: 100000,
 		NonTrivial: func(r *sim.Result) bool { return r.Stats["C07 prepares judged"]+r.Stats["C07 adoptions judged"] > 0 },
 		Rule:       "adversarial cases rich in forged / twisted NEW_VIEWs and bare PREPREPAREs; every PREPARE sent and every proposal stored by a correct node in a view above 0 is judged against the reference NEW_VIEW validator; non-trivial = at least one such act was judged",
